@@ -193,8 +193,16 @@ def gen_case(rng, tier, idx, budget=None):
             g = X.num(rng.choice([2, 3]))                         # plus-side piece keeps the minus coordinates: see corpus
         else:
             g = gen_analytic(rng, ncoord, False, rich=not (ldim == 3))
+    # pre-history (see C04_impl.run_case): regions lowered before the one under test, same interpreter, cache kept
+    history = []
+    if rng.random() < 0.6:
+        cands = [{"t": "domain"}, {"t": "boundary"}] + \
+                [{"t": "face", "p": i, "axis": a, "ext": e} for i in range(npatch) for a in range(ldim) for e in (-1, 1)]
+        cands = [h for h in cands if h != region]
+        rng.shuffle(cands)
+        history = [{"t": "domain"}] * (rng.random() < 0.5 and region["t"] != "domain") + cands[: rng.randint(1, 2)]
     return {"layout": layout, "ldim": ldim, "pdim": pdim, "patches": patches, "connectivity": conn, "region": region,
-            "form": form, "sides": sides, "integrand": g, "grad": grad, "seed": rng.randrange(1 << 30)}
+            "form": form, "sides": sides, "integrand": g, "grad": grad, "history": history, "seed": rng.randrange(1 << 30)}
 
 
 def weight(c):
